@@ -41,6 +41,13 @@ pub fn outl_parse_query(query: &str) -> (r: BTreeMap<String, String>) ensures r@
 pub fn outl_enc_q(s: &String) -> (r: String) ensures r@ == enc_q(s@)
 { /* verbatim: utf8_percent_encode(key, QUERY_ENCODE_SET).to_string() | utf8_percent_encode(value, QUERY_ENCODE_SET).to_string() */ unimplemented!() }
 
+// the file's other encode set (URL_ENCODE_SET: the same without '+'): a different function, nothing else known -- so code that encodes a key or a
+// value with it is seen as doing so and cannot be proved to render enc_q
+pub uninterp spec fn enc_u(s: Seq<char>) -> Seq<char>;
+#[verifier::external_body]
+pub fn outl_enc_u(s: &String) -> (r: String) ensures r@ == enc_u(s@)
+{ /* verbatim: utf8_percent_encode(key, URL_ENCODE_SET).to_string() | utf8_percent_encode(value, URL_ENCODE_SET).to_string() */ unimplemented!() }
+
 // ---- reference rendering (statement): parameters in the map's key order, `key` or `key=value`, joined by '&'; the marketing keys go to
 // the skipped list, all others to the matching query
 pub open spec fn param(k: String, v: String) -> Seq<char> { enc_q(k@) + (if v@.len() > 0 { seq!['='] + enc_q(v@) } else { Seq::<char>::empty() }) }
@@ -107,8 +114,8 @@ impl PathAndQueryWithSkipped {
     //@|     pq_parse(sanitized(path_and_query_str@)) matches Some(pv) ==> canonical(*config, path_and_query_str@, r, pv.0, pv.1),
     //@| outline `url.parse()` => `outl_parse_pq(&url)`
     //@| outline `parse_query(query.as_bytes()).into_owned().collect()` => `outl_parse_query(query)`
-    //@| outline `utf8_percent_encode(key, QUERY_ENCODE_SET).to_string()` => `outl_enc_q(key)`
-    //@| outline `utf8_percent_encode(value, QUERY_ENCODE_SET).to_string()` => `outl_enc_q(value)`
+    //@| outline `utf8_percent_encode(key, QUERY_ENCODE_SET).to_string()` => `outl_enc_q(key)` || `utf8_percent_encode(key, URL_ENCODE_SET).to_string()` => `outl_enc_u(key)`
+    //@| outline `utf8_percent_encode(value, QUERY_ENCODE_SET).to_string()` => `outl_enc_q(value)` || `utf8_percent_encode(value, URL_ENCODE_SET).to_string()` => `outl_enc_u(value)`
     //@| exit proof { if pq_parse(sanitized(path_and_query_str@)) is Some { let pv = pq_parse(sanitized(path_and_query_str@)).unwrap(); if pv.1 is Some { let q = pv.1.unwrap(); assert(exists|es: Seq<(String, String)>| #[trigger] enumerates(es, qmap(q)) && vf_ret.path_and_query@ == with_q(pv.0, render(es, eff_mk(*config), false)) && skipped_ok(*config, vf_ret, es)); } } }
     //@| opt r5:0
     //@| opt r6:0
@@ -180,8 +187,8 @@ impl Request {
     //@@ fn src/http/request.rs :: impl Request / fn build_sorted_query -> r
     //@| ensures exists|es: Seq<(String, String)>| #[trigger] enumerates(es, qmap(query@)) && (no_empty_param(es) ==> match r { Some(q) => q@ == render(es, Set::<String>::empty(), false) && q@.len() > 0, None => render(es, Set::<String>::empty(), false).len() == 0 }),
     //@| outline `parse_query(query.as_bytes()).into_owned().collect()` => `outl_parse_query(query)`
-    //@| outline `utf8_percent_encode(key, QUERY_ENCODE_SET).to_string()` => `outl_enc_q(key)`
-    //@| outline `utf8_percent_encode(value, QUERY_ENCODE_SET).to_string()` => `outl_enc_q(value)`
+    //@| outline `utf8_percent_encode(key, QUERY_ENCODE_SET).to_string()` => `outl_enc_q(key)` || `utf8_percent_encode(key, URL_ENCODE_SET).to_string()` => `outl_enc_u(key)`
+    //@| outline `utf8_percent_encode(value, QUERY_ENCODE_SET).to_string()` => `outl_enc_q(value)` || `utf8_percent_encode(value, URL_ENCODE_SET).to_string()` => `outl_enc_u(value)`
     //@| opt r5:0
     //@| opt r6:0
     //@| attr #[verifier::loop_isolation(false)]
